@@ -13,6 +13,7 @@ import (
 	"time"
 
 	"github.com/johannesboyne/gofakes3/internal/goskipiter"
+	"github.com/johannesboyne/gofakes3/internal/verifhook"
 	"github.com/ryszard/goskiplist/skiplist"
 )
 
@@ -384,6 +385,7 @@ func (u *uploader) UploadPart(bucket, object string, id UploadID, partNumber int
 	if len(body) != int(contentLength) {
 		return "", ErrIncompleteBody
 	}
+	verifhook.At("uploadpart.before-lock")
 	u.mu.Lock()
 	defer u.mu.Unlock()
 	mpu, err := u.getUnlocked(bucket, object, id)
@@ -467,10 +469,12 @@ func (u *uploader) CompleteMultipartUpload(bucket, object string, id UploadID, i
 
 	etag = fmt.Sprintf(`"%s-%d"`, hex.EncodeToString(hash.Sum(nil)), len(input.Parts))
 
+	verifhook.At("complete.before-put")
 	result, err := u.storage.PutObject(bucket, object, mpu.Meta, bytes.NewReader(body), int64(len(body)))
 	if err != nil {
 		return "", "", err
 	}
+	verifhook.At("complete.after-put")
 
 	// if getUnlocked succeeded, so will this:
 	u.buckets[bucket].remove(id)
